@@ -210,3 +210,16 @@ prop("C08",
      "defaults are decided).",
      COMMON_ASSUME + ["refs/keywords.json lists the keywords of Python 3.8-3.12, ISO C++17 and MATLAB R2023b",
                       "flow facts FF1-FF3 (what can reach a back-end switch) were confirmed by reading yaml.go, validation_type_resolution.go and evolution.go"])
+
+prop("C13",
+     "Structural clauses of 'alternative spellings are the same model': (Q1) the primitive name table, evaluated from the constant arguments of the "
+     "primitiveTypes initialiser, maps the 18 primitives to themselves and exactly the documented aliases to their documented primitives; (Q2) "
+     "resolveType overwrites SimpleType.Name with the resolved definition's qualified name before any successful return, so neither an alias nor an "
+     "unqualified spelling survives resolution; (Q3) shorthand and expanded syntax are constructor twins: convertType/applyTypeTail read every field the "
+     "type parser fills, write the same fields of Vector/Map/Array/ArrayDimension/GeneralizedType/TypeCase/SimpleType as the Unmarshal*YAML "
+     "constructors (audited expanded-only fields aside), and `T?` builds [null, T]; (Q4) normalizeComment keeps only the trailing run of '#' lines and "
+     "every yaml comment that becomes documentation passes through it; (Q5) the tag dispatch has a case for every documented tag; (A3) the schema is "
+     "sorted by qualified name and stripped of comments and computed fields; (V5) the dependency sort descends into every node (audited prunes aside).",
+     "Byte-identical generated code for two spellings and accept/reject agreement on all models (relational over all inputs); the grammar of the "
+     "type-string parser itself; that validation normalises nested optional/vector trees the same way for both spellings (observed, not decided).",
+     COMMON_ASSUME + ["refs/aliases.json transcribes the alias rows and tags of docs/*/language.md"])
